@@ -1,25 +1,63 @@
-# The per-property claims.  Updated as theorems land; "exploration" means no theorem decides the property yet.
+# The per-property claims.  Updated as theorems land.  Read by tools/mkmanifest.py.
+# "proof" = Lean 4 theorems in lean/TJ/Props/<id>.lean (and regenerated-term theorems where named) decide the property on the
+# model for all inputs/histories; the tie of the model to /repo is named in each entry.
 NOT_APPLICABLE = []
-_E = 'exploration'
-_stage1 = ('Stage 1 of DESIGN.md section 9: differential correspondence of the executable Lean model with the implementation '
-           'plus the direct predicate on the implementation; the Lean theorems for this property are not yet in TJ.Props.')
-add('C01', _E, 'correspondence + round-trip predicate', _stage1, 'Bounds: lengths <= 4100, sampled keys/nonces.', '5 C01')
-add('C02', _E, 'correspondence with model + KAT files', _stage1, '', '5 C02')
-add('C03', _E, 'tamper stream + correspondence', _stage1, '', '5 C03')
-add('C04', _E, 'tamper stream + zero predicate', _stage1, '', '5 C04')
-add('C05', _E, 'direct permutation calls vs model', _stage1, 'Assembly back ends not yet covered.', '5 C05')
-add('C06', _E, 'guard pages, canaries, ASan/UBSan over an exhaustive length window', _stage1, '', '5 C06')
-add('C07', _E, 'valgrind secret-taint over public shapes', _stage1, '', '5 C07')
-add('C08', _E, 'correspondence + round-trip/tamper predicate (SIV)', _stage1, '', '5 C08')
-add('C09', _E, 'correspondence + pair predicate (SIV)', _stage1, '', '5 C09')
-add('C10', _E, 'correspondence + KAT', _stage1, '', '5 C10')
-add('C11', _E, 'all compositions n<=8, histories over objects', _stage1, '', '5 C11')
-add('C12', _E, 'RFC 2104 over the implementation hash + correspondence', _stage1, '', '5 C12')
-add('C13', _E, 'RFC 5869 reference + partitions', _stage1, '', '5 C13')
-add('C14', _E, 'RFC 8018 reference + correspondence', _stage1, '', '5 C14')
-add('C15', _E, 'reference Hash_DRBG over the implementation hash + correspondence', _stage1, '', '5 C15')
-add('C16', _E, 'bounded-exhaustive op sequences, bound predicate', _stage1, '', '5 C16')
-add('C17', _E, 'delivery patterns, NULL callback equivalence', _stage1, '', '5 C17')
-add('C18', _E, 'all fault sequences to length 4/5 x 3 builds', _stage1, '', '5 C18')
-add('C19', _E, 'symbol audit, interleavings, threads + TSan', _stage1, '', '5 C19')
-add('C20', _E, 'dumps after free, clean windows, build configurations', _stage1, '', '5 C20')
+_P = 'proof'
+_TIE = (' Tie to the code: differential correspondence of the executable model TJ.Impl (compiled lean_exe) with objects built from '
+        'the working tree (prod = CMake Release, san = clang ASan+UBSan) on generated operation lines, plus the property\'s direct predicate '
+        'on the implementation\'s own outputs; a broken proof or correspondence triggers a directed search for a failing input.')
+
+add('C01', _P, 'Lean 4 theorem (induction over the message loop, generic in the keyed permutation) + model/code correspondence',
+    'TJ.Props.C01: for every keyed permutation, nonce, AD and plaintext of any length, encryption has length |m|+8 and decrypt(encrypt(m)) = (0, |m|, m); '
+    'instantiated for the three library variants; TJ.Props.C01Mem (when present) covers in-place use at byte-memory level.' + _TIE,
+    'Bounds of the tie only: lengths <= 4100, sampled keys/nonces, 8 alignments, in-place and separate buffers; compiler matrix in the thorough tier.', '5 C01')
+add('C02', _P, 'Lean 4 refinement proof Impl = bit-serial specification + correspondence + KAT execution of the specification',
+    'TJ.Props.C02: permC (word-sliced model of the three C back ends) equals the bit-serial NLFSR of the NIST document for every state, key and round count; '
+    'aeadEncrypt/aeadDecrypt equal Spec.AEAD for all inputs with a 12-byte nonce.  TJ.Spec is executed on the repository KAT files.' + _TIE,
+    'The specification transcription TJ.Spec is trusted as a reading of the NIST document (validated on KAT files).', '5 C02')
+add('C03', _P, 'Lean 4 theorem accept <-> recomputed tag equal (all 2^64 tags) + tamper-stream correspondence',
+    'TJ.Props.C03: check_tag returns 0 iff the tags are equal; decrypt returns 0 iff the packet equals encrypt(candidate plaintext); every wrong tag is rejected with -1; '
+    'short input rejected without writes; result in {0,-1}.  The 2^-64 forgery bound is cryptographic and not claimed.' + _TIE, '', '5 C03')
+add('C04', _P, 'Lean 4 theorem reject => all-zero buffer / accept => plaintext (AEAD and SIV) + tamper-stream correspondence',
+    'TJ.Props.C04: on rejection the plaintext region is all zero, on acceptance it holds the plaintext, for AEAD and SIV, every length and every permutation.' + _TIE, '', '5 C04')
+add('C05', _P, 'Lean 4 theorems on REGENERATED assembly programs (translator asm2lean.py; symbolic block execution by simp + bv_decide; loop induction) + generator byte-identity + selection table',
+    'Per back end a regenerated theorem TJ.Gen.Asm.<program>.correct: for every machine state and every round count 1 <= r < 2^32 the call returns, the four state words become the '
+    'specification permutation of the old ones, no other memory word changes, callee-saved registers and stack are restored.  21 of 27 assembly programs are covered '
+    '(RV32I, RV32E, ARMv6, ARMv6-M, ARMv7-M, Xtensa windowed and call0, each x 128/192/256); RV64I and AVR5 are listed as not proved in the evidence.  The C back ends: TJ.Props.C05.c_backend_is_spec '
+    '(hand model tied by direct permutation calls).  Generated .S files are compared byte for byte with the bundled generators\' output; back-end selection is unique per target (decided by execution).',
+    'Partial: 6 of 27 assembly programs (RV64I, AVR5) have no theorem yet.  The ISA semantics (TJ.Asm.*) are this project\'s reading of the manuals, not validated by execution (no emulator in the sandbox). bv_decide axioms are enumerated in the evidence.', '5 C05')
+add('C06', 'exploration', 'guard pages, canaries, ASan/UBSan over an exhaustive length window (Lean theorem on the memory-level model: see level text)',
+    'Runtime property: exhaustive length window 0..40 plus block boundaries for every public function under guard pages, canaries and sanitizers, compared with the model\'s exact footprint.  '
+    'Lean part: TJ.Props.C06 (when present) proves the footprint of the memory-level model.', 'Machine-code behaviour is observed, not proved.', '5 C06')
+add('C07', 'exploration', 'valgrind secret-taint over public shapes (Lean non-interference theorem on regenerated MiniC: see level text)',
+    'valgrind memcheck with secrets marked undefined on the optimised objects, one run per public shape.  Lean part: TJ.Props.C07 (when present).', 'Compiled code observed, not proved.', '5 C07')
+add('C08', _P, 'Lean 4 theorems (SIV round-trip, accept <-> tag, short input) + correspondence with tamper stream',
+    'TJ.Props.C08: SIV decrypt(encrypt(m)) = (0,|m|,m), length |m|+8, accept iff the received tag equals the tag of the recovered plaintext, short input rejected without writes; for every permutation.' + _TIE, '', '5 C08')
+add('C09', _P, 'Lean 4 refinement proof Impl.siv = documented two-pass construction + correspondence + KAT execution',
+    'TJ.Props.C09: sivEncrypt equals the README two-pass construction over the bit-serial specification; the body keystream is a function of (key, nonce[0..3], tag, length) only; determinism.  '
+    '"Unrelated bodies for different tags" is a PRF statement and is only sampled (pair test).' + _TIE, '', '5 C09')
+add('C10', _P, 'Lean 4 refinement proof Impl.hash = MDPH specification + correspondence + KAT execution',
+    'TJ.Props.C10: hash m = Spec.hash m (pad 10*, MDPH compression over the 256-bit-key permutation, domain 2 on the last block) for every message; digest length 32.' + _TIE, '', '5 C10')
+add('C11', _P, 'Lean 4 theorem (invariant over update calls, any chunking, any prior state, several objects) + histories correspondence',
+    'TJ.Props.C11: finalize after any list of update chunks from any prior state equals the one-shot hash of the concatenation; init resets every private field; objects are independent.' + _TIE,
+    'Tie bounds: all compositions of n <= 8 (quick) / 12 (thorough), structured chunkings, 3 objects.', '5 C11')
+add('C12', _P, 'Lean 4 theorem HMAC = RFC 2104 for every key length, streaming = one-shot + correspondence',
+    'TJ.Props.C12: hmac key m = RFC 2104 over TinyJAMBU-Hash with B = 64 for every key (<= 64 zero-padded, > 64 hashed first); streaming/reinit equal one-shot.' + _TIE, '', '5 C12')
+add('C13', _P, 'Lean 4 theorem HKDF = RFC 5869 incl. incremental expand sequences and the 8160-byte cap + correspondence',
+    'TJ.Props.C13: extract = RFC 5869; any sequence of expand sizes returns consecutive slices of T(1)..T(255) then zeros with -1; one-shot; cap.' + _TIE, '', '5 C13')
+add('C14', _P, 'Lean 4 theorem PBKDF2 = RFC 8018 (count 0 -> 1, exact length, prefix) + correspondence',
+    'TJ.Props.C14: pbkdf2 = take n (T_1 || T_2 || ...) per RFC 8018 for every password, salt, count and n <= (2^32-1)*32.' + _TIE, '', '5 C14')
+add('C15', _P, 'Lean 4 refinement of SP 800-90A Hash_DRBG (instantiate, block, reseed, feed; carry loop = addition mod 2^256) + scripted-entropy histories',
+    'TJ.Props.C15: each operation of the model refines the documented Hash_DRBG step for every state and entropy delivery.' + _TIE, '', '5 C15')
+add('C16', _P, 'Lean 4 invariant over all operation histories (trace semantics, faithful UInt32 counter) + bounded-exhaustive sequences',
+    'TJ.Props.C16: after any initialisation and any history of generate/feed/reseed/set-limit the event trace never emits more than 32*(limit in force) bytes between two entropy requests; limit rounding; feed never decreases the counter.' + _TIE, '', '5 C16')
+add('C17', _P, 'Lean 4 theorems (status <-> full delivery, NULL callback = system source, usable after failure) + delivery patterns',
+    'TJ.Props.C17: init/reseed return 1 iff the callback returned 32; NULL callback equals tinyjambu_prng_init; every history after any initialisation runs without fault and returns exact lengths.  '
+    '"Output not constant after failed seeding" needs hash properties and is only sampled.' + _TIE, '', '5 C17')
+add('C18', _P, 'Lean 4 theorems over all finite OS fault sequences (induction on the number of transient errors) + interposed libc on 3 builds',
+    'TJ.Props.C18: n transient errors then success -> 1, the OS bytes, n+1 calls; then a permanent error -> 0, zeroed buffer, n+1 calls; PRNG init on top.' + _TIE,
+    'Tie: all sequences over {EINTR,EAGAIN,EIO,ok} to length 4/5 on getrandom / getentropy / raw syscall builds.', '5 C18')
+add('C19', 'exploration', 'symbol audit, interleavings, threads + TSan (Lean frame/commutation theorems: see level text)',
+    'Symbol/section audit of the objects built from the working tree, interleaved-vs-alone histories, real threads under TSan.  Lean part: TJ.Props.C19 (when present).', 'Races in compiled code are observed only on the schedules run.', '5 C19')
+add('C20', 'exploration', 'dumps after free, clean windows, build configurations (Lean theorems: see level text)',
+    'State dumps after free following random histories for four state kinds; clean on every (offset, size) window with canaries; HAVE_EXPLICIT_BZERO on/off and compiler matrix.  Lean part: TJ.Props.C20 (when present).', '', '5 C20')
